@@ -9,6 +9,7 @@ Termination is judged by a deterministic interpreter-step budget, linear in the 
 from __future__ import annotations
 
 import copy
+import time
 
 from dst.core import prng, shrink, stepbudget
 from dst.world import decoder_rig, messages, reader_rig
@@ -35,11 +36,13 @@ STATE_MEASURE = "distinct (remembered decoder, entry point, input kind, outcome 
 REAL = ["han.autodecoder.AutoDecoder", "han.aidon", "han.kaifa", "han.kamstrup", "han.cosem", "han.dlde (parser/decoder, DataReadout, ModeDReader)", "han.hdlc.HdlcFrameReader (to build message objects)", "han.obis", "construct"]
 STUB = ["history/fault generator over the vendored genuine corpus", "HDLC frame builder / P1 readout wrapper"]
 ASSUMPTIONS = [
+    "a single decode call taking more than 10 s of wall-clock time (genuine messages: milliseconds) is reported as exceeding the time bound - the only wall-clock verdict in the framework, three orders of magnitude above normal",
     "step budget 7 x (50000 + 2000 x len(input)) PY_START+JUMP events bounds time; allocation by Python code is bounded by the same count (a single huge C-level allocation in one step would be missed)",
     "priming uses genuine messages through decode_message_payload only; a priming call that itself raises makes the run void",
 ]
 MUST_FIRE = {"quick": ["remembered_None", "remembered_Kamstrup_frame", "remembered_P1", "remembered_Kamstrup_notification_body", "long_priming_history", "entry_message_p1", "entry_message_hdlc", "kind_unbalanced_paren", "result_dict", "result_none"], "thorough": ["remembered_None", "remembered_Kamstrup_frame", "remembered_P1", "remembered_Kamstrup_notification_body", "long_priming_history", "entry_message_p1", "entry_message_hdlc", "kind_unbalanced_paren", "result_dict", "result_none"]}
 
+WALL_LIMIT_S = 10.0
 ENTRIES = ["payload", "payload", "payload", "message_hdlc", "message_dlms", "message_p1"]
 
 
@@ -96,6 +99,7 @@ def execute(sc):
     steps = 0
     outcome = "void"
     used_entry = sc["entry"]
+    wall0 = time.monotonic()
     if not void:
         try:
             with stepbudget.StepBudget(budget) as sb:
@@ -120,6 +124,11 @@ def execute(sc):
             outcome = "budget"
             steps = budget
             viol.append({"sig": "C15/T step-budget-exceeded", "detail": f"{used_entry} on {len(data)} octets ({data[:60]!r}) with remembered decoder {remembered} used more than {budget} interpreter events: no termination in time"})
+    wall = time.monotonic() - wall0
+    if wall > WALL_LIMIT_S and not viol:
+        # Time spent outside the interpreter's step accounting (big-number arithmetic, regular expressions): a call that
+        # normally takes milliseconds needing more than WALL_LIMIT_S seconds is not "bounded by a small polynomial in the input length".
+        viol.append({"sig": "C15/W wall-clock-time-bound", "detail": f"{used_entry} on {len(data)} octets ({data[:60]!r}) with remembered decoder {remembered} took {wall:.1f} s of wall-clock time (limit {WALL_LIMIT_S} s; genuine messages take milliseconds) although only {steps} interpreter events were counted"})
     return {
         "violations": viol,
         "void": void,
